@@ -50,6 +50,7 @@ type pathState struct {
 	side        map[any]any // per-path side tables (mutex state, builders, ...)
 	stubs       map[string]bool
 	named       map[string]*Term
+	namedDef    map[string]*Term // fresh name -> the term it abbreviates
 	observations []string
 }
 
@@ -604,7 +605,7 @@ func (w *worker) runPath(h *HarnessSpec, fn *ssa.Function, it workItem) {
 	p := &pathState{
 		w: w, prefix: it.prefix,
 		inputSorts: map[string]Sort{}, choices: map[string]int{}, fresh: map[string]int{},
-		side: map[any]any{}, stubs: map[string]bool{}, named: map[string]*Term{},
+		side: map[any]any{}, stubs: map[string]bool{}, named: map[string]*Term{}, namedDef: map[string]*Term{},
 	}
 	m.path = p
 	m.fuel = h.fuel()
